@@ -43,7 +43,7 @@ def mk_discrete_offline(rng):
     n = rng.randint(1, 6)
     vs = F.variables(f) or ["a"]
     return {"kind": "offd", "f": f, "n": n, "data": F.gen_trace(rng, vs + (["zz"] if rng.random() < 0.2 else []), n), "vars": vs,
-            "units": rng.random() < 0.3}
+            "units": rng.random() < 0.3, "tuples": rng.random() < 0.2}
 
 
 def mk_discrete_online(rng):
@@ -90,24 +90,42 @@ def check_offline_discrete(ctx, c):
     ds2 = {"time": list(range(c["n"]))}
     ds2.update({v: [x + 1.0 for x in c["data"][v]] for v in c["data"]})
 
+    # one case in five: the columns are tuples (legal wherever the visitor does not concatenate lists); evaluate() must leave the
+    # caller's dictionary as it is - the same column objects, equal to what they were
+    tuples = c.get("tuples")
+    if tuples:
+        for v in c["data"]:
+            ds[v] = tuple(ds[v])
+
     def go():
         spec = impl.make_spec("offd", text, sorted(c["data"]), **kw)
         spec.parse()
         before = copy.deepcopy(ds)
-        r1 = spec.evaluate(ds)
-        mutated = ds != before
+        ids = {k_: id(v_) for k_, v_ in ds.items()}
+        try:
+            r1 = spec.evaluate(ds)
+        except Exception:
+            if not tuples:
+                raise
+            # tuples are not accepted by this formula (a visitor concatenates lists): the caller's data must be intact all the same
+            return (ds != before or any(id(ds[k_]) != ids[k_] for k_ in ids)), before, None, None, None
+        mutated = ds != before or any(id(ds[k_]) != ids[k_] for k_ in ids)
         r1c = copy.deepcopy(r1)
         r2 = spec.evaluate(ds)
         spec.evaluate(copy.deepcopy(ds2))
         r3 = spec.evaluate(ds)
         return mutated, before, r1c, r2, r3
     out = impl.guarded(go)
-    rep = {"kind": "offd", "units": bool(c.get("units")), "spec": text, "formula": F.to_proto(c["f"]), "n": c["n"], "data": c["data"], "impl": out}
+    rep = {"kind": "offd", "tuples": bool(c.get("tuples")), "units": bool(c.get("units")), "spec": text, "formula": F.to_proto(c["f"]), "n": c["n"], "data": c["data"], "impl": out}
     if out[0] != "ok":
         return Violation("discrete offline evaluate() raised %r: %s" % (out[1:], text), rep, stream="pure/offd")
     mutated, before, r1, r2, r3 = out[1]
+    if tuples:
+        ctx.count("tuple-columns" + ("/rejected" if r1 is None else ""))
     if mutated:
         return Violation("evaluate() modified the caller's data set: %r became %r: %s" % (before, ds, text), rep, stream="pure/args")
+    if r1 is None:
+        return None
     v1, v2, v3 = [p[1] for p in r1], [p[1] for p in r2], [p[1] for p in r3]
     if not same_vals(v1, v2) or not same_vals(v1, v3):
         return Violation("evaluating the same offline object again on the same data gives %r, then %r, then (after another data set) %r: %s"
@@ -533,7 +551,7 @@ def replay(ctx, obj):
         return (v is None), (v.what if v else "the object behaves like a fresh one after the failed evaluate()")
     if obj["kind"] == "offd":
         c = {"kind": "offd", "f": F.from_proto(obj["formula"]), "n": obj["n"], "data": {k: [float(x) for x in v] for k, v in obj["data"].items()},
-             "units": obj.get("units")}
+             "units": obj.get("units"), "tuples": obj.get("tuples")}
         v = check_offline_discrete(scratch, c)
     elif obj["kind"] == "interleave-dense":
         return True, "interleaving case (re-run ./check C11 to re-check it)"
